@@ -5,6 +5,7 @@ from ..loader import AnalysisError, attr_path, src, walk_no_nested_defs, norm_st
 from ..pointsto import PointsTo, MUTATORS
 
 SOLVER_MODULES = ("tad.py", "reverse_dfs.py")
+GENERATOR_MODULES = ("roberta_generator.py", "stochastic_game_from_roborta_board.py")
 
 GAME_INPUT_SCHEMA = {"rewards": ("rewards", 1), "players": ("players", 1),
                      "transition_list": ("transition_list", 2), "final_states": ("final_states", 1)}
@@ -1049,4 +1050,88 @@ def rule_no_module_level_iterators(ctx, chk, rule, modules):
                         chk.violation(rule, f.where(x if isinstance(x, ast.For) else f.node), "`%s` iterates the module-level `%s = %s`, a one-shot iterator: the first loop over it uses it up, "
                                       "every later one (the next game, the next call of %s) runs zero times" % (norm_stmt(x)[:60] if isinstance(x, ast.For) else "a comprehension", name, src(val)[:50], f.short),
                                       expected="a tuple / list (or the iterator built where it is used)", found="%s = %s" % (name, src(val)[:80]), construct="%s module-level iterator %s" % (mname, name))
+    return n
+
+
+def rule_mutable_defaults(ctx, chk, rule, modules):
+    """A parameter whose default is a list / dict / set display (or list() / dict() / set()) and that the function changes in place:
+    the default object is created once, at definition time, so what one call puts into it is what the next call starts from -
+    the result of a call depends on the calls made before it in the same process.  True if something was reported."""
+    MUT = ("append", "add", "update", "setdefault", "extend", "insert", "pop", "popitem", "clear", "remove", "discard", "sort", "reverse", "appendleft")
+    hit = False
+    n = 0
+    for f in ctx.prog.all_funcs(tuple(modules)):
+        a = f.node.args
+        params = a.posonlyargs + a.args
+        defaults = dict(zip([p.arg for p in params[len(params) - len(a.defaults):]], a.defaults))
+        defaults.update({p.arg: d for p, d in zip(a.kwonlyargs, a.kw_defaults) if d is not None})
+        for name, d in defaults.items():
+            mutable = isinstance(d, (ast.List, ast.Dict, ast.Set)) or (isinstance(d, ast.Call) and call_name(d) in ("list", "dict", "set", "collections.defaultdict", "defaultdict"))
+            if not mutable:
+                continue
+            n += 1
+            rebinds = [x for x in walk_no_nested_defs(f.node) if isinstance(x, ast.Name) and x.id == name and isinstance(x.ctx, ast.Store)]
+            for x in walk_no_nested_defs(f.node):
+                bad = None
+                if isinstance(x, ast.Call) and isinstance(x.func, ast.Attribute) and x.func.attr in MUT and isinstance(x.func.value, ast.Name) and x.func.value.id == name:
+                    bad = x
+                elif isinstance(x, ast.Subscript) and isinstance(x.ctx, (ast.Store, ast.Del)) and isinstance(x.value, ast.Name) and x.value.id == name:
+                    bad = x
+                elif isinstance(x, ast.AugAssign) and isinstance(x.target, ast.Name) and x.target.id == name:
+                    bad = x
+                if bad is not None and not rebinds:
+                    hit = True
+                    chk.violation(rule, f.where(bad), "%s changes its parameter `%s` in place, and the default of `%s` is a mutable object created once when the function is defined: "
+                                  "every call that relies on the default starts from what the earlier calls left in it (the second file of a process is not named / built like the first)"
+                                  % (f.short, name, name), expected="a None default and a fresh object per call", found=norm_stmt(ctx.cfg(f).stmt_of(bad))[:100],
+                                  construct="%s mutable default %s" % (f.short, name))
+                    break
+    if not hit:
+        chk.ok(rule, ", ".join(modules), "no function changes a mutable default argument in place (%d mutable default(s) examined)" % n)
+    return hit
+
+
+def rule_no_module_state(ctx, chk, rule, roots, what):
+    """The functions reachable from `roots` write no module-level state (a `global` name, a module-level container changed in place,
+    a memoising decorator): with such state what a call produces depends on the calls made before it in the same process."""
+    MUT = ("append", "add", "update", "setdefault", "extend", "insert", "pop", "popitem", "clear", "remove", "discard", "sort", "reverse", "appendleft")
+    scope = ctx.cg.reachable(list(roots))
+    n = 0
+    for g in scope:
+        mod_names = set(g.mod.consts) | {t.id for st in g.mod.tree.body if isinstance(st, (ast.Assign, ast.AnnAssign))
+                                         for tt in (st.targets if isinstance(st, ast.Assign) else [st.target]) for t in ast.walk(tt) if isinstance(t, ast.Name)}
+        declared = set()
+        for x in walk_no_nested_defs(g.node):
+            if isinstance(x, (ast.Global, ast.Nonlocal)):
+                declared.update(x.names)
+        local_names = set(g.params) | {x.id for x in walk_no_nested_defs(g.node) if isinstance(x, ast.Name) and isinstance(x.ctx, ast.Store) and x.id not in declared}
+        for x in walk_no_nested_defs(g.node):
+            if isinstance(x, ast.Name) and isinstance(x.ctx, ast.Store) and x.id in declared:
+                n += 1
+                chk.violation(rule, g.where(x), "`%s` assigns the module-level name `%s` while %s: what the next call produces depends on this call" % (
+                    norm_stmt(ctx.cfg(g).stmt_of(x))[:80], x.id, what), expected="no state kept between calls", found=norm_stmt(ctx.cfg(g).stmt_of(x))[:100],
+                    construct="%s writes global %s" % (g.short, x.id))
+            tgt = None
+            if isinstance(x, ast.Call) and isinstance(x.func, ast.Attribute) and x.func.attr in MUT:
+                tgt = x.func.value
+            elif isinstance(x, ast.Subscript) and isinstance(x.ctx, (ast.Store, ast.Del)):
+                tgt = x.value
+            elif isinstance(x, ast.AugAssign) and isinstance(x.target, ast.Name) and x.target.id in declared:
+                tgt = None
+            if tgt is not None:
+                base = tgt
+                while isinstance(base, (ast.Attribute, ast.Subscript)):
+                    base = base.value
+                if isinstance(base, ast.Name) and base.id not in local_names and base.id in mod_names:
+                    n += 1
+                    chk.violation(rule, g.where(x), "`%s` modifies the module-level object `%s` while %s: a table kept between calls - the second call of a process starts from what "
+                                  "the first one left there" % (norm_stmt(ctx.cfg(g).stmt_of(x))[:80], base.id, what), expected="no state kept between calls",
+                                  found=norm_stmt(ctx.cfg(g).stmt_of(x))[:100], construct="%s mutates %s" % (g.short, base.id))
+        for d in g.node.decorator_list:
+            if "cache" in src(d):
+                n += 1
+                chk.violation(rule, g.where(), "%s is memoised (`@%s`): a repeated call returns the object the first call built (shared, and blind to anything but the arguments)" % (g.short, src(d)),
+                              expected="no memoisation", found=src(d), construct="%s memoised" % g.short)
+    if not n:
+        chk.ok(rule, ", ".join(sorted({g.mod.name for g in scope})), "%d functions (%s): no module-level state written, none memoised" % (len(scope), what))
     return n
